@@ -114,8 +114,15 @@ func (c *FileHash) marshalControl() (string, error) {
 	return fmt.Sprintf("%s %d %s", c.Hash, c.Size, c.Filename), nil
 }
 
-func (c *FileHash) unmarshalControl(algorithm, data string) error {
-	var err error
+func (c *FileHash) unmarshalControl(algorithm, data string) (err error) {
+	/* the entry is what the line says: nothing survives from what the
+	 * receiver held before, and a rejected line leaves nothing behind */
+	*c = FileHash{}
+	defer func() {
+		if err != nil {
+			*c = FileHash{}
+		}
+	}()
 	c.Algorithm = algorithm
 	vals := strings.Fields(data)
 
